@@ -152,6 +152,9 @@ type ConnObs struct {
 	Sent         int     // bytes the script delivered
 	OpStep       []int   // scheduler step at which op i (first segment) was applied
 	OpDoneStep   []int   // step at which op i's last segment was applied
+	ConnectMs    int64    // simulated time of the connect
+	SegMs        []int64  // simulated time of every delivered segment
+	EndMs        int64    // simulated time of close/reset/halfclose by the client (0 = never)
 	Dgrams       [][]byte // UDP: responses received
 	DgramSteps   []int
 }
@@ -427,6 +430,7 @@ func (w *World) microStep(i int, c *cursor) {
 		if !c.conn {
 			c.conn = true
 			ep, err := w.Net.Connect(mustTCPAddr(a.Src), mustTCPAddr(a.Dst))
+			co.ConnectMs = w.nowMs()
 			w.tracef("a%d connect %s->%s err=%v", i, a.Src, a.Dst, err != nil)
 			if err != nil {
 				co.Refused = true
@@ -487,6 +491,7 @@ func (w *World) microStep(i int, c *cursor) {
 			w.Net.SendUDP(mustUDPAddr(a.Src), mustUDPAddr(a.Dst), seg)
 			co.Sent += len(seg)
 		}
+		co.SegMs = append(co.SegMs, w.nowMs())
 		w.tracef("a%d send op%d seg%d len=%d", i, c.op, c.seg, len(seg))
 		c.seg++
 		if c.seg < len(c.segs) {
@@ -501,6 +506,7 @@ func (w *World) microStep(i int, c *cursor) {
 		if ep := w.eps[i]; ep != nil {
 			ep.Close()
 		}
+		co.EndMs = w.nowMs()
 		w.tracef("a%d close", i)
 	case "halfclose":
 		if ep := w.eps[i]; ep != nil {
